@@ -85,6 +85,10 @@ def run_scenario(sc: dict[str, Any]) -> dict[str, Any]:
             kopf.index(GROUP, VERSION, 'widgets', registry=reg, id='widx')(widx)
             for nm in gate['things']: sim.create(nm, {'x': 1}, labels={'ix': 'yes'})
             for nm in gate['widgets']: sim.create(nm, {'x': 1}, res=widgets)
+            if gate.get('gadgets'):      # a handled kind WITHOUT an index of its own: its handlers wait for the indices of the others, too
+                gadgets = sim.srv.add_resource(ResDef(GROUP, VERSION, 'gadgets', 'Gadget', namespaced=True))
+                kopf.on.create(GROUP, VERSION, 'gadgets', registry=reg, id='oncreate_g')(on_create)
+                for nm in gate['gadgets']: sim.create(nm, {'x': 1}, res=gadgets)
 
             def policy(req):
                 if req.route.get('kind') == 'list' and req.route.get('plural') in ('things', 'widgets'):
@@ -155,6 +159,9 @@ def gate_scenarios() -> list[dict[str, Any]]:
         for late in (12, 2):      # a new object arriving on the watch after / while the other kind is still being listed
             out.append({'id': f'gate-{dt}-{dw}-{limit}-{late}', 'table': {}, 'env': [(late, 'add', 'c')], 'end': 40,
                         'gate': {'things': ['a', 'b'], 'widgets': ['w1'], 'delay': {'things': dt, 'widgets': dw}, 'limit': limit}})
+        if limit == 0:
+            out.append({'id': f'gate-{dt}-{dw}-{limit}-unindexed-kind', 'table': {}, 'env': [], 'end': 40,
+                        'gate': {'things': ['a', 'b'], 'widgets': ['w1'], 'gadgets': ['g1'], 'delay': {'things': dt, 'widgets': dw}, 'limit': limit}})
     return out
 
 
